@@ -51,6 +51,17 @@ CHECKS = [
      "bundled metaschema file, and raises only SchemaError, over every hostile {keyword: value} at every subschema position "
      "(55k candidates per draft in the quick tier); each metaschema is accepted by its own class.",
      "trusts mc/ref/spec.py; format inert", "5 C11"),
+    ("C02", "exploration", "exhaustive enumeration of reference placements/names/base arrangements vs. a designation model + inlining (metamorphic: inlined schema validated by the implementation)",
+     "For every enumerated placement of references (every applicator position incl. abandoning ones, hostile names, 14 "
+     "spellings / target locations, ids on the evaluation path, recursion, store- and handler-served documents) the schema "
+     "with references gives the same verdict and the same (instance path, keyword) multiset as the reference-free schema "
+     "obtained by writing the designated schema in place of each reference.",
+     "urljoin/urldefrag trusted as RFC 3986; own RFC 6901 decoder; issue-371 targets excluded as the property states; one open known finding (id next to $ref)", "5 C02"),
+    ("C10", "exploration", "exhaustive enumeration of foreign-keyword insertions; metamorphic before/after comparison",
+     "Inserting any name outside the draft's vocabulary (from an independent vocabulary table), with hostile and "
+     "would-fail-if-active values, at every subschema position of every base schema leaves the error identities unchanged; "
+     "likewise any keyword next to a $ref and the other draft's id spelling above a relative reference.",
+     "vocabulary table written from the specifications; messages that embed the edited subschema are not compared; one open known finding (own id next to $ref)", "5 C10"),
 ]
 
 
